@@ -405,10 +405,10 @@ def check_gridded(case, ctx):
         px = xg[where[1] % len(xg)]
         py = yg[where[2] % len(yg)]
     elif where[0] == 'inside':
-        i = where[1] % (len(xg) - 1)
-        j = where[2] % (len(yg) - 1)
-        px = xg[i] + (xg[i + 1] - xg[i]) * case['frac'][0]
-        py = yg[j] + (yg[j + 1] - yg[j]) * case['frac'][1]
+        i = where[1] % max(len(xg) - 1, 1)
+        j = where[2] % max(len(yg) - 1, 1)
+        px = xg[i] + ((xg[i + 1] - xg[i]) * case['frac'][0] if len(xg) > 1 else 0.0)
+        py = yg[j] + ((yg[j + 1] - yg[j]) * case['frac'][1] if len(yg) > 1 else 0.0)
     else:
         px = xg[0] - 3.0 if where[1] % 2 == 0 else xg[-1] + 5.0
         py = yg[0] + (yg[-1] - yg[0]) * case['frac'][1]
@@ -439,10 +439,11 @@ def check_gridded(case, ctx):
     # oracle: clamped bilinear blend of the four neighbours' ImagePSF values
     cx = min(max(px, xg[0]), xg[-1])
     cy = min(max(py, yg[0]), yg[-1])
-    i = min(max(int(np.searchsorted(xg, cx, side='right')) - 1, 0), len(xg) - 2)
-    j = min(max(int(np.searchsorted(yg, cy, side='right')) - 1, 0), len(yg) - 2)
-    tx = (cx - xg[i]) / (xg[i + 1] - xg[i])
-    ty = (cy - yg[j]) / (yg[j + 1] - yg[j])
+    i = min(max(int(np.searchsorted(xg, cx, side='right')) - 1, 0), max(len(xg) - 2, 0))
+    j = min(max(int(np.searchsorted(yg, cy, side='right')) - 1, 0), max(len(yg) - 2, 0))
+    # (a single row / column: only one reference position along that axis)
+    tx = (cx - xg[i]) / (xg[i + 1] - xg[i]) if len(xg) > 1 else 0.0
+    ty = (cy - yg[j]) / (yg[j + 1] - yg[j]) if len(yg) > 1 else 0.0
     exp = np.zeros_like(got)
     for (ii_, jj_, w) in ((i, j, (1 - tx) * (1 - ty)), (i + 1, j, tx * (1 - ty)),
                           (i, j + 1, (1 - tx) * ty), (i + 1, j + 1, tx * ty)):
@@ -471,12 +472,14 @@ def check_gridded(case, ctx):
 @st.composite
 def gridded_cases(draw):
     # (wide grids: more columns than rows with >= 3 rows, and the reverse)
-    nxg, nyg = draw(st.integers(2, 6)), draw(st.integers(2, 4))
+    # (incl. a single row / column / reference PSF)
+    nxg, nyg = draw(st.integers(1, 6)), draw(st.integers(1, 4))
     if draw(st.integers(0, 4)) == 0:
         nxg, nyg = nyg, nxg
 
     def grid(n):
-        steps = draw(st.lists(st.floats(20, 300), min_size=n - 1, max_size=n - 1))
+        steps = draw(st.lists(st.floats(20, 300), min_size=max(n - 1, 0),
+                              max_size=max(n - 1, 0)))
         g = [draw(st.floats(0, 50))]
         for s in steps:
             g.append(g[-1] + s)
